@@ -257,3 +257,21 @@ def run(chk):
                 else:
                     chk.bad("R6", "validation:" + i.key, i.file, i.line, i.what, i.expected, i.found)
     chk.guard("R6", r6)
+
+    def r7():
+        # `..expr` supplies exactly the fields no member instruction provides: whether a member contributes a line must not depend on the
+        # presence of the update expression (nor on vars / attributes): no path of the member loops consults those parameters
+        from ..linetables import struct_iter_table
+        chk.rule("R7", "member rendering is independent of the instruction's body parameters: no path of the per-member loop consults update / init_data / attribute parameters", floor=1)
+        T = struct_iter_table(chk.repo)
+        hits = {}
+        for lf in T["leaves"]:
+            for a in lf.d:
+                m_ = re.search(r"struct_attr\.(update|init_data|attribute|impl_attribute|inner_attribute)\b", a)
+                if m_:
+                    hits.setdefault(m_.group(1), a)
+        for name, atom in sorted(hits.items()):
+            chk.bad("R7", f"member-loop consults {name}", EXPAND, T["line"], "whether / how a member is rendered depends on this body parameter (a field with its own instruction may be dropped and silently taken from `..expr`)", found=atom)
+        if not hits:
+            chk.ok("R7", "member-loop/independent", EXPAND, T["line"], detail={"leaves": len(T["leaves"])})
+    chk.guard("R7", r7)
